@@ -189,7 +189,9 @@ def impl_assertion(c, store, srv):
     elif mut == "other-clients-key": key = b"some-other-secret-some-other-secret" if kind == "client_secret_jwt" else R.pem_private(R.keys()["rsa2"])
     elif mut == "type-wrong": atype = "urn:bogus"
     elif mut == "type-missing": atype = None
-    elif mut == "not-registered-method": store.clients[cid].token_endpoint_auth_method = "client_secret_basic"
+    elif mut == "not-registered-method":
+        old = store.clients[cid]
+        store.clients[cid] = Client(cid, old.client_secret, ["https://c/cb"], "a b", ms.ALL_GRANT_TYPES, ms.ALL_RESPONSE_TYPES, "client_secret_basic", extra=old.extra)
     tok = jwt.encode(header, claims, key)
     tok = tok.decode() if isinstance(tok, bytes) else tok
     if mut == "bad-sig":
